@@ -104,6 +104,15 @@ func (p *packetIDLimiter) markUsedLocked(id packets.PacketID) {
 	p.lockedPid.Set(id, 1)
 }
 
+// waitQuotaLocked blocks until the number of used id is less than the limit or the limiter has been closed.
+// Return false if the limiter is closed.
+func (p *packetIDLimiter) waitQuotaLocked() bool {
+	for p.used >= p.limit && !p.exit {
+		p.cond.Wait()
+	}
+	return !p.exit
+}
+
 func (p *packetIDLimiter) lock() {
 	p.cond.L.Lock()
 }
